@@ -164,6 +164,11 @@ def linesVia (c : Nat) (sched : Nat → Nat) (file : Bytes) : List Bytes := read
 /-- the cyclic schedule of `Fragmenting` (`harness/src/fragio.rs`) -/
 def cyclic (l : List Nat) (k : Nat) : Nat := max 1 (l.getD (k % l.length) 1)
 
+/-- `fastx::get_kind(source)`: `read_exact` of one byte (the source's read number 0, asked for 1 byte), then
+`Cursor([b]).chain(source)`: seen by a `BufReader` put on top, read number 0 returns that one byte and read number
+`k ≥ 1` is the source's read number `k` — one more admissible schedule over the same byte string. -/
+def chainSched (sched : Nat → Nat) (k : Nat) : Nat := if k = 0 then 1 else sched k
+
 /-! ## Specification side: the first line of a byte string -/
 
 /-- the first line (up to and including the first LF, or everything) and what follows it -/
